@@ -143,9 +143,9 @@ CHECKS = {
     "C19": {"runs": [
         {"name": "c19inj", "plan": "c19inj", "srcs": S, "san": "asan"},
         {"name": "c19sing", "plan": "c19sing", "srcs": S, "san": "asan"},
-        {"name": "c19rt", "plan": "c19rt", "srcs": S, "san": "asan", "opts": {"quick": {"ex_n": 9, "st_lens": 2}}},
-        {"name": "c19rc", "plan": "c19rc", "srcs": S, "san": "asan", "opts": {"quick": {"ex_n": 7, "st_lens": 1, "ex_lens": 2, "max_n": 14}}},
+        {"name": "c19rt", "plan": "c19rt", "srcs": S, "san": "asan", "weight": 6, "opts": {"quick": {"ex_n": 9, "st_lens": 2}}},
+        {"name": "c19rc", "plan": "c19rc", "srcs": S, "san": "asan", "weight": 4, "opts": {"quick": {"ex_n": 7, "st_lens": 1, "ex_lens": 2, "max_n": 14}}},
         {"name": "c19sc", "plan": "c19sc", "srcs": S, "san": "asan", "opts": {"quick": {"all_n": 9}}},
         {"name": "c19fn", "plan": "c19fn", "srcs": S, "san": "asan", "opts": {"quick": {"ex_n": 7, "st_t": 4}}},
-    ], "level": "model_checking", "deadline": {"quick": 240, "thorough": 1500}, "rule": RULE_S, "assumptions": ASSUME_S},
+    ], "level": "model_checking", "deadline": {"quick": 240, "thorough": 1800}, "rule": RULE_S, "assumptions": ASSUME_S},
 }
